@@ -31,6 +31,10 @@ def run(ctx, R, tier):
     drain(F, R)
     errs(F, R)
     drops(F, R)
+    modulator_finished(F, R)
+    # 'a sound finishing frees its slot at the next callback': a streaming sound whose decoder failed is finished in every state
+    from .c10 import err_gate_first
+    err_gate_first(F, R, rule='B.C08.finish')
     keys(F, R)
     reserve(F, R)
     play_inserts(F, R)
@@ -355,6 +359,23 @@ def drops(F, R):
 ID_TYPES = ('clock::ClockId', 'modulator::ModulatorId', 'listener::ListenerId', 'track::send::SendTrackId')
 KEY_OK = ('atomic_arena::Arena::<T>::get', 'atomic_arena::Arena::<T>::get_mut', 'backend::resources::ResourceStorage::<T>::get_mut',
           'backend::resources::ResourceController::<T>::insert_with_key', 'atomic_arena::Arena::<T>::insert_with_key')
+
+
+def modulator_finished(F, R, rule='B.C08.drop'):
+    """The modulators' removal predicate asks `Modulator::finished`: for every modulator kira ships, that IS the removal flag
+    its handle raises on drop (one outcome: the load of `removed`) - not the flag *and* something about the modulator's own
+    state, which leaves a dropped modulator (and its slot) alive for as long as that state lasts."""
+    n = 0
+    for b in F.bodies:
+        if b.krate != 'kira' or not b.path.endswith(' as modulator::Modulator>::finished') or 'DummyModulator' in b.path or 'Placeholder' in b.path:
+            continue
+        n += 1
+        rets = [str(p.ret) for p in explore(b) if p.end == 'return']
+        switches = [x for x in range(b.n) if b.blocks[x]['term']['k'] == 'switch' and not b.blocks[x]['cleanup']]
+        ok = len(rets) == 1 and '::load(' in rets[0] and '.removed' in rets[0] and not switches
+        ty = b.path[1:].split(' as ')[0]
+        R.check(ok, rule, 'finished:' + ty, '%s::finished is %s: not just the removal flag' % (ty, [r[:70] for r in rets][:3]), detail={'returns': [r[:90] for r in rets]}, where=b.file)
+    R.floor(rule + '.finished', n, 2)
 
 
 def keys(F, R):
